@@ -166,6 +166,15 @@ func init() {
 		},
 		"sort.Stable":         sortPerm,
 		"sort.Sort":           sortPerm,
+		"sort.Slice":          sortPerm,
+		"sort.SliceStable":    sortPerm,
+		"sort.Strings":        sortPerm,
+		"sort.Ints":           sortPerm,
+		"sort.Float64s":       sortPerm,
+		"slices.Sort":           sortPerm,
+		"slices.SortFunc":       sortPerm,
+		"slices.SortStableFunc": sortPerm,
+		"slices.Reverse":        sortPerm,
 		"container/heap.Push": heapOp("push"),
 		"container/heap.Pop":  heapOp("pop"),
 		"container/heap.Fix":  heapOp("fix"),
@@ -527,17 +536,18 @@ func heapOp(kind string) trustedFn {
 func sortPerm(fr *Frame, st *State, a []Val, in ssa.Instruction) Val {
 	u := fr.u
 	ci := in.(ssa.CallInstruction)
-	mi, ok := ci.Common().Args[0].(*ssa.MakeInterface)
+	// the slice: wrapped in an interface (sort.Sort, sort.Stable, sort.Slice, sort.SliceStable) or passed as it is
+	// (slices.Sort, slices.SortFunc, slices.SortStableFunc, slices.Reverse, sort.Strings, ...)
+	var sv ssa.Value = ci.Common().Args[0]
+	if mi, ok := sv.(*ssa.MakeInterface); ok {
+		sv = mi.X
+	}
+	slT, ok := sv.Type().Underlying().(*types.Slice)
 	if !ok {
 		u.havocAll(st)
 		return unitV()
 	}
-	slT, ok := mi.X.Type().Underlying().(*types.Slice)
-	if !ok {
-		u.havocAll(st)
-		return unitV()
-	}
-	x := fr.get(mi.X)
+	x := fr.get(sv)
 	h := u.arrHeap(slT.Elem())
 	es := u.enc.sortOf(slT.Elem())
 	hc := u.heapCur(st, h)
@@ -552,7 +562,7 @@ func sortPerm(fr *Frame, st *State, a []Val, in ssa.Instruction) Val {
 	u.assume(fmt.Sprintf("(forall ((i!s Int)) (! (=> (and (<= 0 i!s) (< i!s %s)) (and (<= 0 (%s i!s)) (< (%s i!s) %s) (= (%s (%s i!s)) i!s) (= (select %s (ix %s i!s)) (select %s (ix %s (%s i!s)))))) :pattern ((select %s (ix %s i!s))) :pattern ((%s i!s))))", ln, perm, perm, ln, inv, perm, newRow, off, oldRow, off, perm, newRow, off, perm))
 	u.assume(fmt.Sprintf("(forall ((k!s Int)) (! (=> (and (<= 0 k!s) (< k!s %s)) (and (<= 0 (%s k!s)) (< (%s k!s) %s) (= (%s (%s k!s)) k!s) (= (select %s (ix %s (%s k!s))) (select %s (ix %s k!s))))) :pattern ((select %s (ix %s k!s))) :pattern ((%s k!s))))", ln, inv, inv, ln, perm, inv, newRow, off, inv, oldRow, off, oldRow, off, inv))
 	u.heapStoreAt(st, h, app("sl_base", x.T), newRow)
-	u.note("sort.Sort/Stable: modelled as an in-place permutation of the slice (order not modelled)")
+	u.note("sort.Sort/Stable/Slice, slices.Sort*/Reverse: modelled as an in-place permutation of the slice (order not modelled)")
 	return unitV()
 }
 
